@@ -152,6 +152,12 @@ pub fn c13_native<G: AffineRepr>(variant: &str, seed: u64, model: HashMap<String
         out.push((format!("set{}: second Prover::commit with the same blinding and another value", i), V2.into_group() == refc(v1 + G::ScalarField::from(3u64), r1)));
     }
     out.push(("commit(0,0) is the identity".into(), pc.commit(G::ScalarField::zero(), G::ScalarField::zero()).is_zero()));
+    {
+        let mut pt = Transcript::new(b"c13");
+        let mut prover = Prover::new(&pc, &mut pt);
+        let (Vz, _) = prover.commit(G::ScalarField::zero(), G::ScalarField::zero());
+        out.push(("Prover::commit(0,0) is the identity".into(), Vz.is_zero()));
+    }
     out
 }
 
@@ -200,8 +206,20 @@ pub fn c07_native<G: AffineRepr + 'static>(case: &crate::scen_c07::BatchCase, se
     let bp = BulletproofGens::<G>::new(maxpad, 1);
     // (a)
     let mut shrs = vec![];
-    let mut proofs = vec![];
+    let mut proofs: Vec<R1CSProof<G>> = vec![];
     for (i, inst) in case.instances.iter().enumerate() {
+        if inst.kind == "same_proof_other_constant" && i > 0 {
+            let f = fork_for_verifier(&inst.shape, &shrs[i - 1]);
+            {
+                let mut fb = f.borrow_mut();
+                fb.dev_draw = Some(("const".into(), 0));
+                fb.dev_delta = Some(model.get("delta0").and_then(|s| crate::job::parse_rational::<G::ScalarField>(s)).filter(|d| !d.is_zero()).unwrap_or(G::ScalarField::from(seed + 11)));
+            }
+            let dup: R1CSProof<G> = proofs[i - 1].clone();
+            proofs.push(dup);
+            shrs.push(f);
+            continue;
+        }
         let shr = new_shared::<G>(&inst.shape, &Default::default(), Box::new(PlainVals::<G::ScalarField>::new(HashMap::new(), seed + i as u64)));
         let (p, _) = prove_shape(&inst.shape, &shr, &pc, &bp, seed + i as u64);
         match p {
@@ -221,12 +239,14 @@ pub fn c07_native<G: AffineRepr + 'static>(case: &crate::scen_c07::BatchCase, se
         indiv.push(v.verify(&proofs[i], &pc, &bp).is_ok());
         rewind_for_verifier(&shrs[i]);
     }
+    let kinds: Vec<String> = case.instances.iter().map(|i| i.kind.clone()).collect();
     let run_batch = |proofs: &Vec<R1CSProof<G>>, shapes: &Vec<Shape>, shrs: &Vec<std::rc::Rc<std::cell::RefCell<Shared<G>>>>| -> bool {
         let mut ts: Vec<Transcript> = shapes.iter().map(|s| new_verifier_transcript(s)).collect();
         let mut insts = vec![];
         for (i, vt) in ts.iter_mut().enumerate() {
             rewind_for_verifier(&shrs[i]);
-            insts.push((build_verifier(&shapes[i], &shrs[i], vt), &proofs[i]));
+            let pi = if kinds[i] == "same_proof_other_constant" && i > 0 { i - 1 } else { i };
+            insts.push((build_verifier(&shapes[i], &shrs[i], vt), &proofs[pi]));
         }
         let mut rng = rand_chacha::ChaChaRng::seed_from_u64(seed ^ 0xa1fa);
         batch_verify(&mut rng, insts, &pc, &bp).is_ok()
